@@ -147,8 +147,36 @@ def c03_pred(R, P, fstart):
     return None
 
 
+def ref_projgr(x, g, lb, ub):
+    """Infinity norm of the projected gradient, computed by the harness (NOT the package's function: an oracle must not trust
+    the code under test)."""
+    x = np.asarray(x, float)
+    return np.max(np.abs(np.clip(x - np.asarray(g, float), lb, ub) - x))
+
+
+def ref_max_step(x, d, lb, ub, cap, it):
+    """Largest step keeping x + t d in the box (1 at iteration 0, as documented), computed by the harness."""
+    if it == 0:
+        return 1.0
+    best = float(cap)
+    for xi, di, l, u in zip(np.asarray(x, float), np.asarray(d, float), lb, ub):
+        if di > 0 and np.isfinite(u):
+            t = (u - xi) / di
+        elif di < 0 and np.isfinite(l):
+            t = (l - xi) / di
+        else:
+            continue
+        if np.isfinite(t):
+            best = min(best, float(t))
+    return best
+
+
+def ref_curvature_ok(s, y, eps=2.2e-16):
+    return bool(np.dot(s, y) > eps * np.dot(y, y))
+
+
 def c04_pred(R, P, cfg, nit0=0, n0=1, ftarget_val=None, gtol_val=None, scale=1.0, callable_grad=True):
-    from lbfgsb.base import projgr
+    projgr = ref_projgr
 
     r = R.res
     m = r.message
